@@ -35,11 +35,16 @@ CLAIMS = {
   "note": "Trusted: nom, regex, tokenizers and Term/date/ip builders called from the parser (outside the scope). Not decided: that the parse result means what the grammar documents; strict/lenient agreement.",
   "technique": "panic inventory over MIR (Assert terminators + panicking callees) on the reachable call graph, SCC recursion analysis",
  },
+ "C19": {
+  "text": "Decides offsets by construction and snippet totality: only the tokenizers of a frozen table assign Token offsets (no filter does; split-compound copies them field to field); in the Simple/Whitespace/Ngram streams the stored offsets are the very operands of the `&self.text[from..to]` slice whose result fills token.text before `true` is returned, so Rust's str slicing proves in-bounds, char-boundary, from<=to and text==slice for every input; the snippet code's panicking constructs equal a triaged table whose reasons rest on an invariant that is itself checked (stop_offset only grows, highlighted ranges are token offsets, fragments start at a token start); to_html escapes every fragment push.",
+  "note": "Trusted: regex crate's match-boundary guarantee, htmlescape, str slicing semantics. Not decided: filter texts, stemmers, max_num_chars accounting, the facet tokenizer's text.",
+  "technique": "who-may-write-field tables, operand-identity (same SSA root) check between stored offsets and slice operands, panic inventory, value back-trace",
+ },
 }
 NA = {
  "C13": "quantifies over values returned by arbitrary advance/seek programs on stateful iterators; failures are arithmetic; the only structural statement (wrapper forwarding) is not a necessary condition, so no sound static rule is in reach",
  "C14": "aggregation results are run-time numeric values (bucket arithmetic, float sums, sketches); structural parts are already enforced by derive and the compiler",
 }
 # properties not yet claimed (checks under construction) are listed as not applicable *for now*
-for _p, _why in {'C02': 'check under construction in this session (rules designed in DESIGN.md section 4; not yet registered)', 'C03': 'check under construction in this session (rules designed in DESIGN.md section 4; not yet registered)', 'C04': 'check under construction in this session (rules designed in DESIGN.md section 4; not yet registered)', 'C06': 'check under construction in this session (rules designed in DESIGN.md section 4; not yet registered)', 'C07': 'check under construction in this session (rules designed in DESIGN.md section 4; not yet registered)', 'C08': 'check under construction in this session (rules designed in DESIGN.md section 4; not yet registered)', 'C09': 'check under construction in this session (rules designed in DESIGN.md section 4; not yet registered)', 'C12': 'check under construction in this session (rules designed in DESIGN.md section 4; not yet registered)', 'C15': 'check under construction in this session (rules designed in DESIGN.md section 4; not yet registered)', 'C17': 'check under construction in this session (rules designed in DESIGN.md section 4; not yet registered)', 'C19': 'check under construction in this session (rules designed in DESIGN.md section 4; not yet registered)', }.items():
+for _p, _why in {'C02': 'check under construction in this session (rules designed in DESIGN.md section 4; not yet registered)', 'C03': 'check under construction in this session (rules designed in DESIGN.md section 4; not yet registered)', 'C04': 'check under construction in this session (rules designed in DESIGN.md section 4; not yet registered)', 'C06': 'check under construction in this session (rules designed in DESIGN.md section 4; not yet registered)', 'C07': 'check under construction in this session (rules designed in DESIGN.md section 4; not yet registered)', 'C08': 'check under construction in this session (rules designed in DESIGN.md section 4; not yet registered)', 'C09': 'check under construction in this session (rules designed in DESIGN.md section 4; not yet registered)', 'C12': 'check under construction in this session (rules designed in DESIGN.md section 4; not yet registered)', 'C15': 'check under construction in this session (rules designed in DESIGN.md section 4; not yet registered)', 'C17': 'check under construction in this session (rules designed in DESIGN.md section 4; not yet registered)', }.items():
     NA[_p] = _why
